@@ -8,6 +8,8 @@
                               order, first error aborts, hooksByName), loadHook (filepath.Rel,
                               run `--config`, LoadConfig; the two error messages), GetHook
      path/filepath            Rel, on the elements of the two paths
+     pkg/hook/config/config.go Bindings, HasBinding (which binding types a configuration declares) and
+                              the three indices Init fills from them (registry, at the end of this file)
 
    The model follows the code AFTER the repair of F10 (the skip test for hidden / lib
    directories is applied only below the directory handed to the walk). *)
@@ -258,4 +260,95 @@ Fixpoint lstat (x : xtree) : tree :=
   | XDir n cs => Dir n (map lstat cs)
   | XLink n _ => File n link_mode
   | XFifo n m => File n (N.lor mode_named_pipe m)
+  end.
+
+(* ---- WHAT a valid configuration declares, and the indices Init builds from it ----
+   (seeded change C20-8)  hook.LoadConfig turns the --config answer into a HookConfig;
+   HookConfig.HasBinding(b) says whether the configuration declares a binding of type b, and
+
+     var validBindingTypes = []BindingType{OnStartup, Schedule, OnKubernetesEvent,
+                                           KubernetesValidating, KubernetesMutating, KubernetesConversion}
+     func (c *HookConfig) Bindings() []BindingType {
+         res := []BindingType{}
+         for _, binding := range validBindingTypes { if c.HasBinding(binding) { res = append(res, binding) } }
+         return res }
+
+   A configuration is modelled by the list of binding types it declares (possibly EMPTY: a v1
+   configuration with `settings:` only, a v0 configuration {"schedule": []}). *)
+Inductive binding :=
+| BOnStartup | BSchedule | BOnKubernetesEvent | BKubernetesValidating | BKubernetesMutating | BKubernetesConversion.
+
+Definition valid_binding_types : list binding :=
+  [BOnStartup; BSchedule; BOnKubernetesEvent; BKubernetesValidating; BKubernetesMutating; BKubernetesConversion].
+
+Definition binding_eqb (a b : binding) : bool :=
+  match a, b with
+  | BOnStartup, BOnStartup | BSchedule, BSchedule | BOnKubernetesEvent, BOnKubernetesEvent
+  | BKubernetesValidating, BKubernetesValidating | BKubernetesMutating, BKubernetesMutating
+  | BKubernetesConversion, BKubernetesConversion => true
+  | _, _ => false
+  end.
+
+Definition config := list binding.                         (* the binding types the configuration declares *)
+Definition has_binding (c : config) (b : binding) : bool := existsb (binding_eqb b) c.
+Definition bindings (c : config) : list binding := filter (has_binding c) valid_binding_types.
+
+(* the three indices of the hook manager *)
+Record registry := mkRegistry {
+  rg_in_order : binding -> list bytes;     (* hm.hooksInOrder[binding], the hooks by their names *)
+  rg_by_name : by_name;                    (* hm.hooksByName *)
+  rg_names : list bytes                    (* hm.hookNamesInOrder *)
+}.
+
+Definition empty_registry : registry := mkRegistry (fun _ => []) [] [].
+
+(* hm.hooksInOrder[binding] = append(hm.hooksInOrder[binding], hook) *)
+Definition append_in_order (m : binding -> list bytes) (b : binding) (name : bytes) : binding -> list bytes :=
+  fun b' => if binding_eqb b' b then m b' ++ [name] else m b'.
+
+(*  // register hook in indices
+    for _, binding := range hook.Config.Bindings() {
+        hm.hooksInOrder[binding] = append(hm.hooksInOrder[binding], hook) }
+    hm.hooksByName[hook.Name] = hook
+    hm.hookNamesInOrder = append(hm.hookNamesInOrder, hook.Name)
+   the by-name index and the list of names are written OUTSIDE the loop over the bindings: a hook
+   enters them whatever its configuration declares *)
+Definition register (c : config) (name path : bytes) (r : registry) : registry :=
+  mkRegistry (fold_left (fun m b => append_in_order m b name) (bindings c) (rg_in_order r))
+             ((name, path) :: rg_by_name r)
+             (rg_names r ++ [name]).
+
+(* the loop of Init once more, with the configuration each hook answers ([cfg], by hook name;
+   consulted only for a hook whose --config run yields a valid configuration) *)
+Fixpoint load_registry (wd : bytes) (beh : bytes -> behaviour) (cfg : bytes -> config)
+         (paths : list bytes) (r : registry) : registry :=
+  match paths with
+  | [] => r
+  | p :: rest =>
+      let name := rel wd p in
+      match beh name with
+      | BOk => load_registry wd beh cfg rest (register (cfg name) name p r)
+      | _ => r                                           (* return err *)
+      end
+  end.
+
+Definition registry_of (parent root : bytes) (cs : list tree) (beh : bytes -> behaviour) (cfg : bytes -> config) : registry :=
+  load_registry (working_dir parent root) beh cfg (sorted_paths parent root cs) empty_registry.
+
+(* the configuration shapes the generated hook files print (harness/internal/c20/configs.go, same
+   numbering).  A file's --config code carries the shape: 10 + shape = a valid configuration of
+   that shape; every other code that is not 1 or 2 (0: nothing said about the file) = shape 0. *)
+Definition shape_of_code (c : N) : N := c - 10.
+Definition shape_bindings (s : N) : config :=
+  match s with
+  | 1 | 2 | 3 | 4 | 15 => []                                       (* valid, declares nothing *)
+  | 5 => [BSchedule]
+  | 6 => [BOnKubernetesEvent]
+  | 7 => [BKubernetesValidating]
+  | 8 => [BKubernetesMutating]
+  | 9 => [BKubernetesConversion]
+  | 10 | 13 => [BOnStartup; BSchedule; BOnKubernetesEvent]
+  | 11 => valid_binding_types
+  | 16 => [BSchedule; BOnKubernetesEvent]
+  | _ => [BOnStartup]                                              (* 0, 12, 14 *)
   end.
